@@ -20,8 +20,11 @@ class ToolError(Exception):
     pass
 
 
+_T0 = time.time()
+
+
 def log(*a):
-    print(*a, file=sys.stderr, flush=True)
+    print(f"[{time.time()-_T0:6.1f}]", *a, file=sys.stderr, flush=True)
 
 
 def sh(cmd, cwd=None, env=None, timeout=None, input=None):
@@ -71,13 +74,16 @@ def scratch_spec(files):
 
 
 _scratch_n = 0
+_tlc_n = 0
 
 
 def run_tlc(module, cfg, workers=4, timeout=600, simulate=None, depth=None, dump=None, env=None,
             coverage=True, heap="4g", tag=None, deque=False, seed=None, continue_=False, cwd=None, xss="64m"):
     """Runs TLC on spec/<module>.tla with spec/<cfg>. Returns TlcResult. Raises ToolError on
     parse errors / crashes / timeouts."""
-    tag = tag or f"{module}_{os.path.basename(cfg)}_{os.getpid()}_{int(time.time()*1000)%100000}"
+    global _tlc_n
+    _tlc_n += 1
+    tag = tag or f"{module}_{_tlc_n}"
     meta = os.path.join(PWORK, "tlc", tag)
     tmp = os.path.join(PWORK, "tmp")
     os.makedirs(meta, exist_ok=True)
@@ -247,6 +253,7 @@ def run_bin(name, args=(), input=None, timeout=600, features=None, target=None, 
 def run_bin_parallel(name, jobs, timeout=900, nproc=None, features=None, target=None, env=None):
     """jobs: list of (args, input_text). Runs up to nproc processes at a time. Returns list of CompletedProcess."""
     bindir = build_harness(features, target)
+    os.makedirs(os.path.join(PWORK, "tmp"), exist_ok=True)
     nproc = nproc or min(NCPU, 14)
     procs = []
     results = [None] * len(jobs)
